@@ -595,9 +595,8 @@ func (h *H) oracle(op Op, real, model []BoxD) {
 			delete(h.lastNext, key)
 		} else if ok && inc != incByName[b.Name] {
 			what := fmt.Sprintf("mailbox %q denotes a different set of messages (incarnation %d, was %d) under the same UIDVALIDITY %d", b.Name, incByName[b.Name], inc, b.Validity)
-			// class predicate of finding C03-F1: both incarnations were created within the same wall-clock second,
-			// which is the only way the implementation (uid_validity = time.Now().Unix()) can produce equal values
-			h.Rep.Finding("C03-F1", what+" (creations within one clock second)", h.replay())
+			// (finding C03-F1 until repair 090198b: creations within one clock second got the same value from the clock)
+			h.Rep.Violate("impl-violation", "UIDVALIDITY never used with that name before (Props.C03.validity_fresh)", what, h.replay())
 			delete(h.incOf, key) // treat as new incarnation from here on
 			delete(h.seenUID, key)
 			delete(h.maxUID, key)
